@@ -1,7 +1,7 @@
 //! C12 — Merkle commitments open only to the committed leaf at the committed position,
 //! and the cap does not depend on how construction is scheduled.
 use plonky2::field::goldilocks_field::GoldilocksField;
-use plonky2::field::types::Field;
+use plonky2::field::types::{Field, PrimeField64};
 use plonky2::hash::batch_merkle_tree::BatchMerkleTree;
 use plonky2::hash::keccak::KeccakHash;
 use plonky2::hash::merkle_proofs::{
@@ -165,6 +165,27 @@ fn exec_h<H: Hasher<F>>(case: &Case, rep: &mut Report) {
     let n = 1usize << top;
     let base_sig = hash_value(&json!([case.hasher, case.log_heights, case.widths, case.cap_height, case.leaf_seed]));
     let levels = ref_levels::<H>(&mats, case.cap_height);
+    // the committed matrices hold the same field elements, some in their non-canonical machine representation x + p
+    // (arithmetic produces it with probability ~2^-32 per element, deserialisation and `from_noncanonical_u64` at will)
+    let mats_committed: Vec<Vec<Vec<F>>> = if case.leaf_seed & 1 == 1 {
+        let mut rr = Rng::new(case.leaf_seed ^ 0x0c12);
+        let mut any = false;
+        let m = mats.iter().map(|m| m.iter().map(|leaf| leaf.iter().map(|x| {
+            let c: u64 = x.to_canonical_u64();
+            if c <= 0xFFFF_FFFE && rr.chance(1, 4) {
+                any = true;
+                F::from_noncanonical_u64(c + crate::core::P)
+            } else {
+                *x
+            }
+        }).collect()).collect()).collect();
+        if any {
+            rep.probe("c12.non_canonical_representation_in_leaves");
+        }
+        m
+    } else {
+        mats.clone()
+    };
     let ref_cap: Vec<H::Hash> = levels.last().unwrap().clone();
     if case.widths.iter().any(|&w| w <= 4) {
         rep.probe("c12.leaf_not_hashed(noop)");
@@ -186,10 +207,10 @@ fn exec_h<H: Hasher<F>>(case: &Case, rep: &mut Report) {
     case.sched.arm();
     let built = guarded(|| {
         if batch {
-            let t = BatchMerkleTree::<F, H>::new(mats.clone(), case.cap_height);
+            let t = BatchMerkleTree::<F, H>::new(mats_committed.clone(), case.cap_height);
             (t.cap.clone(), t.digests.clone(), Some(t), None)
         } else {
-            let t = MerkleTree::<F, H>::new(mats[0].clone(), case.cap_height);
+            let t = MerkleTree::<F, H>::new(mats_committed[0].clone(), case.cap_height);
             (t.cap.clone(), t.digests.clone(), None, Some(t))
         }
     });
@@ -210,10 +231,10 @@ fn exec_h<H: Hasher<F>>(case: &Case, rep: &mut Report) {
     Sched::sequential().arm();
     let seq = guarded(|| {
         if batch {
-            let t = BatchMerkleTree::<F, H>::new(mats.clone(), case.cap_height);
+            let t = BatchMerkleTree::<F, H>::new(mats_committed.clone(), case.cap_height);
             (t.cap, t.digests)
         } else {
-            let t = MerkleTree::<F, H>::new(mats[0].clone(), case.cap_height);
+            let t = MerkleTree::<F, H>::new(mats_committed[0].clone(), case.cap_height);
             (t.cap, t.digests)
         }
     });
